@@ -412,26 +412,52 @@ def q3(ctx):
         cl = [x for x in role_walk(r) if isinstance(x, tuple) and x[0] == "agg" and x[1] in crate.bodies]
         ok = len(cl) == 1 and closure_returns_component(crate, cl[0], c_) and role_mentions_call(r, "iter") and not any(isinstance(x, tuple) and x[0] == "call" and x[1] in ("filter", "take", "skip") for x in role_walk(r))
         ctx.check(ok, "projection:" + nm_, "%s collects component %s of every pair" % (nm_, c_), "%s does not collect component %s of every pair" % (nm_, c_), where_of(b))
-    # try_union: None iff a key is present with a different value
+    # try_union: None iff a key is present with a different value; otherwise self + every pair of other
     tu = m(crate, "try_union")
-    none_defs = [d for d in tu.defs().get(0, []) if d["kind"] == "assign" and strip_role(tu.role_of_rvalue(d["rv"]))[0] == "agg" and str(strip_role(tu.role_of_rvalue(d["rv"]))[1]).endswith("None")]
-    ok = False
-    for d in none_defs:
-        conds = C.conditions_at(tu, d["bb"])
-        ok = any(cond[0] == "ne" and (role_mentions_call(cond[1], "get") or role_mentions_call(cond[2], "get")) for e, cond in conds)
-        # combinator form: out.get(x).is_some_and(|z| y != z)
-        for e, cond in conds:
-            r_ = strip_role(cond[1]) if cond[0] == "true" and len(cond) > 1 else None
-            if isinstance(r_, tuple) and r_[0] == "call" and r_[1] == "is_some_and" and len(r_[3]) == 2 and role_mentions_call(r_[3][0], "get"):
-                cl_ = strip_role(r_[3][1])
-                if cl_[0] == "agg" and cl_[1] in crate.bodies:
-                    cr = crate.bodies[cl_[1]].role_of_local(0)
-                    if any(isinstance(y, tuple) and ((y[0] == "call" and y[1] == "ne") or (y[0] == "bin" and y[1] == "Ne")) for y in role_walk(cr)):
-                        ok = True
-    ctx.check(len(none_defs) == 1 and ok, "try-union-none-on-conflict", "try_union returns None exactly under 'key present with a different value'", "try_union's None branch is not guarded by a value conflict", where_of(tu))
-    ins = loop_inserts(crate, tu)
-    ok = len(ins) == 1 and comp(ins[0][1]) == ("other", "0") and comp(ins[0][2]) == ("other", "1") and role_mentions_call(tu.role_of_operand(ins[0][0].args[0]), "clone")
-    ctx.check(ok, "try-union-adds-others-pairs", "try_union = self.clone() + every pair of other", "try_union inserts (%s, %s)" % (role_str(ins[0][1]) if ins else "?", role_str(ins[0][2]) if ins else "?"), where_of(tu))
+    okn = False
+    n_none = 0
+    for sub in tu.all_bodies():
+        for d in sub.defs().get(0, []):
+            if d["kind"] != "assign":
+                continue
+            rr = strip_role(sub.role_of_rvalue(d["rv"]))
+            if not (isinstance(rr, tuple) and rr[0] == "agg" and str(rr[1]).endswith("None")):
+                continue
+            conds = C.conditions_at(sub, d["bb"])
+            conflict = any(cond[0] == "ne" and (role_mentions_call(cond[1], "get") or role_mentions_call(cond[2], "get")) for e_, cond in conds)
+            for e_, cond in conds:
+                r_ = strip_role(cond[1]) if cond[0] == "true" and len(cond) > 1 else None
+                if isinstance(r_, tuple) and r_[0] == "call" and r_[1] == "is_some_and" and len(r_[3]) == 2 and role_mentions_call(r_[3][0], "get"):
+                    cl_ = C._closure_of_role(crate, r_[3][1])
+                    if hasattr(cl_, "calls") and any(isinstance(y, tuple) and ((y[0] == "call" and y[1] == "ne") or (y[0] == "bin" and y[1] == "Ne")) for y in role_walk(cl_.role_of_local(0))):
+                        conflict = True
+            if conflict:
+                okn = True
+                n_none += 1
+            elif sub is tu and any(isinstance(x, tuple) and x[0] == "call" and x[1] in ("try_fold", "branch") for x in role_walk(sub.role_of_local(0))):
+                pass          # the None produced by `?` / try_fold propagation of the closure's None
+            else:
+                n_none += 1
+                okn = okn and False
+    ctx.check(okn and n_none == 1, "try-union-none-on-conflict", "try_union returns None exactly under 'key present with a different value'", "try_union's None branch is not guarded by a value conflict", where_of(tu))
+    ins = [(sub, c) for sub in tu.all_bodies() for c in sub.calls if c.callee and c.callee.target == "slotmap::SlotMap::insert" and not sub.blocks[c.bb]["cleanup"]]
+    ok = len(ins) == 1
+    if ok:
+        sub, c = ins[0]
+        k_, v_ = role_str(sub.role_of_operand(c.args[1])), role_str(sub.role_of_operand(c.args[2]))
+        same_elem = (k_.endswith(".0") and v_.endswith(".1") and k_[:-2] == v_[:-2]) or (comp(strip_role(sub.role_of_operand(c.args[1]))) == ("other", "0") and comp(strip_role(sub.role_of_operand(c.args[2]))) == ("other", "1"))
+        # the loop over `other` may be left early only to answer None
+        none_bbs = {d["bb"] for d in tu.defs().get(0, []) if d["kind"] == "assign" and isinstance(strip_role(tu.role_of_rvalue(d["rv"])), tuple) and str(strip_role(tu.role_of_rvalue(d["rv"]))[1]).endswith("None")}
+        loop_ok = False
+        for lp in C.iterator_loops(tu):
+            src = strip_role(lp[1])
+            while isinstance(src, tuple) and src[0] == "call" and src[1] in ITER_ADAPTORS and src[3]:
+                src = strip_role(src[3][0])
+            if src == ("param", "other"):
+                loop_ok = tu.must_pass(lp[3], tu.return_blocks(), set(lp[2]) | none_bbs)
+        ok = same_elem and (visits_all_of(crate, tu, "other") or loop_ok) or (same_elem and any(x.callee and x.callee.name in ("try_fold", "fold") and role_mentions_param(tu.role_of_operand(x.args[0]), "other") for x in tu.calls))
+        ok = ok and role_mentions_call(tu.role_of_local(0), "clone") or (ok and any(x.callee and x.callee.name == "clone" and strip_role(tu.role_of_operand(x.args[0])) == ("param", "self") for x in tu.calls))
+    ctx.check(bool(ok), "try-union-adds-others-pairs", "try_union = self.clone() + every pair of other", "try_union no longer inserts every pair (x, y) of other into a copy of self", where_of(tu))
     # is_perm / is_bijection
     ip = m(crate, "is_perm")
     names = {c.callee.name for c in ip.calls if c.callee}
